@@ -283,6 +283,9 @@ def run_check(prop: str, tier: str) -> int:
             "failing_runs_triaged": triaged,
             "failing_runs_with_address_dependent_outcome": nondeterministic_failures,
             "known_findings_suppressed": suppressed,
+            "known_findings_open": [e["id"] for e in open_entries],
+            "known_findings_fixed": [e["id"] + "@" + e.get("commit", "") for e in fixed_entries],
+            "witness_replays": sum(len(e.get("witnesses", [])) for e in entries),
             "timeouts": len(batch["timeouts"]),
             "harness_anomalies": len(anomalies),
             "workers": workers,
